@@ -187,6 +187,15 @@ def run(ctx):
     ctx.proof_phase("ProbLogProofs.Properties.C10Bridge", ["ProbLogProofs.C10.C01_pipeline_downstream", "ProbLogProofs.C10.C01_pipeline_downstream_atoms",
                                                             "ProbLogProofs.C10.C01_extractWeights_spec", "ProbLogProofs.C10.C10_evaluate_is_conditional_wmc"])
     ctx.proof_phase("ProbLogProofs.Properties.C09Unroll", ["ProbLogProofs.C09.C09_breakCycles_correct"])
+    # the grounder itself, on ground programs without recursion: model + exact correspondence + theorem
+    # C01_ground_acyclic_correct (upstream of C01_pipeline_downstream)
+    import ground_util
+    gerr = ground_util.guarded(ctx, "all", 250, 6000)
+    rc = _run_rest(ctx)
+    return ground_util.after(rc, gerr)
+
+
+def _run_rest(ctx):
     drv = ctx.driver("Drivers.Spine")
     if drv is None:
         return ctx.finish("proof")
